@@ -87,7 +87,7 @@ class Outcome:
         return (tuple(segs), self.exit)
 
 
-def outcome_of(p: Path, view: View) -> Outcome:
+def outcome_of(p: Path, view: View, in_loop: bool = False) -> Outcome:
     o = Outcome()
     for e in p.effects:
         if e.kind == 'call':
@@ -126,10 +126,14 @@ def outcome_of(p: Path, view: View) -> Outcome:
     ex = p.exit
     if ex in ('return', 'raise') and not (view.ignore_exit_value and ex == 'return'):
         ex = '%s %s' % (ex, p.exit_value)
-    if ex == 'return None':
-        ex = 'fall'
-    if ex == 'return':
-        ex = 'fall'
+    if in_loop:
+        # inside a loop body falling off the end and `continue` both start the next iteration;
+        # `return` leaves the function and is something else
+        if ex in ('fall', 'continue'):
+            ex = 'next-iteration'
+    else:
+        if ex in ('return None', 'return', 'fall'):
+            ex = 'end'
     o.exit = ex
     return o
 
@@ -183,12 +187,12 @@ def _effect_line(p: Path, diff: str) -> int:
 
 
 def compare_paths(code: List[Path], spec: List[Path], view: View, stats: Optional[dict] = None,
-                  depth: int = 0) -> List[Mismatch]:
+                  depth: int = 0, in_loop: bool = False) -> List[Mismatch]:
     """all mismatching feasible (code path, spec path) pairs"""
     out: List[Mismatch] = []
     stats = stats if stats is not None else {}
-    couts = [outcome_of(p, view) for p in code]
-    souts = [outcome_of(p, view) for p in spec]
+    couts = [outcome_of(p, view, in_loop) for p in code]
+    souts = [outcome_of(p, view, in_loop) for p in spec]
     seen_keys = set()
     for pc, oc in zip(code, couts):
         if solve([(a, pol) for a, pol, _ in pc.lits], view.integer_dims) is None:
@@ -222,7 +226,7 @@ def compare_paths(code: List[Path], spec: List[Path], view: View, stats: Optiona
                 continue
             # same events: descend into the loops they contain
             for (hc, rc), (hs, rs) in zip(oc.loops, os_.loops):
-                sub = compare_paths(rc.paths, rs.paths, view, stats, depth + 1)
+                sub = compare_paths(rc.paths, rs.paths, view, stats, depth + 1, in_loop=True)
                 for m in sub:
                     if m.diff not in seen_keys:
                         seen_keys.add(m.diff)
